@@ -937,5 +937,14 @@ func init() {
 			c05fn(tier, seed, out)
 		}
 		c05conc(tier, seed, out)
+		if os.Getenv("VERIF_SHARD") == "" {
+			n := 12
+			if tier != "quick" {
+				n = 200
+			}
+			for i := 0; i < n; i++ {
+				out.Line("%s", c05Stress(NewRNG(seed, fmt.Sprintf("c05s-%d", i)), i))
+			}
+		}
 	}
 }
